@@ -1,3 +1,118 @@
-(* Corr/Monitors.v — executable property predicates evaluated on the implementation's traces. *)
+(* Corr/Monitors.v — executable property predicates evaluated on the implementation's traces
+   (and, for the properties whose trace theorem is proved, on the model's: Props/*.v).
+   A monitor reads only the inputs of a case and the observations the harness projected from the
+   real provider; it returns 0 when no clause is violated, else clause*1000 + (1-based) index of
+   the operation at which the clause failed. *)
 From Verif Require Import Base Scope Types Prog Pop Token Authorize System Config Run.
 Local Open Scope N_scope.
+
+Definition viol (clause : N) (k : nat) : N := clause * 1000 + N.of_nat (S k).
+
+(* association lists keyed by handles *)
+Fixpoint lookup {A} (k : id) (l : list (id * A)) : option A :=
+  match l with [] => None | (k', v) :: r => if ideq k k' then Some v else lookup k r end.
+
+(* ---- what an observer of the trace knows about each credential ---- *)
+Record ginfo := mkGI { gi_client : id; gi_sub : string; gi_granted : string; gi_origin : id (* code it came from *) }.
+
+Record known := mkKnown {
+  k_cbs : list (id * id);          (* callback id -> client *)
+  k_codes : list (id * ginfo);
+  k_ats : list (id * ginfo);
+  k_rts : list (id * ginfo)
+}.
+Definition known0 : known := mkKnown [] [] [] [].
+
+Definition cred_client (c : cred) : id := cr_id c.
+
+(* learn from one (operation, observation) pair *)
+Definition learn (kn : known) (o : op) (x : obs) : known :=
+  match o, x with
+  | OpAuthorize r, Out (OPage cb) => mkKnown ((cb, ar_client r) :: k_cbs kn) (k_codes kn) (k_ats kn) (k_rts kn)
+  | OpAuthorize r, Out (ONav _ _ nv) =>
+      match ar_pol r with
+      | PolSuccess sub granted =>
+          let gi := mkGI (ar_client r) sub granted (n_code nv) in
+          mkKnown (k_cbs kn)
+            (if is_nil (n_code nv) then k_codes kn else (n_code nv, gi) :: k_codes kn)
+            (if is_nil (n_at nv) then k_ats kn else (n_at nv, gi) :: k_ats kn) (k_rts kn)
+      | _ => kn
+      end
+  | OpCallback r, Out (ONav _ _ nv) =>
+      match cb_pol r, lookup (cb_id r) (k_cbs kn) with
+      | PolSuccess sub granted, Some cl =>
+          let gi := mkGI cl sub granted (n_code nv) in
+          mkKnown (k_cbs kn)
+            (if is_nil (n_code nv) then k_codes kn else (n_code nv, gi) :: k_codes kn)
+            (if is_nil (n_at nv) then k_ats kn else (n_at nv, gi) :: k_ats kn) (k_rts kn)
+      | _, _ => kn
+      end
+  | OpToken GAuthorizationCode r, Out (OTokens t) =>
+      match lookup (t_code r) (k_codes kn) with
+      | Some gi => mkKnown (k_cbs kn) (k_codes kn) ((tr_at t, gi) :: k_ats kn)
+                     (if is_nil (tr_rt t) then k_rts kn else (tr_rt t, gi) :: k_rts kn)
+      | None => kn
+      end
+  | OpToken GRefreshToken r, Out (OTokens t) =>
+      match lookup (t_refresh r) (k_rts kn) with
+      | Some gi => mkKnown (k_cbs kn) (k_codes kn) ((tr_at t, gi) :: k_ats kn)
+                     (if is_nil (tr_rt t) then k_rts kn else (tr_rt t, gi) :: k_rts kn)
+      | None => kn
+      end
+  | OpToken GClientCredentials r, Out (OTokens t) =>
+      mkKnown (k_cbs kn) (k_codes kn)
+        ((tr_at t, mkGI (cr_id (t_cred r)) (cname (cr_id (t_cred r))) (t_scope r) 0) :: k_ats kn) (k_rts kn)
+  | _, _ => kn
+  end.
+
+(* generic driver: clause function sees the knowledge BEFORE the operation *)
+Section Driver.
+  Variable clause : config -> known -> Z -> op -> obs -> N.   (* 0 = fine, else clause number *)
+  Fixpoint drive (cfg : config) (kn : known) (k : nat) (now : Z) (ops : list op) (xs : list obs) : N :=
+    match ops, xs with
+    | o :: ops', x :: xs' =>
+        match clause cfg kn now o x with
+        | 0 => drive cfg (learn kn o x) (S k) (match o with OpTick d => (now + d)%Z | _ => now end) ops' xs'
+        | c => viol c k
+        end
+    | _, _ => 0
+    end.
+End Driver.
+
+Definition run_monitor clause (c : syscase) : N :=
+  match build (sc_profile c) (sc_opts c) with
+  | Some cfg => drive clause cfg known0 0%nat 0%Z (sc_ops c) (sc_obs c)
+  | None => 0
+  end.
+
+Definition ptok_exact (p : ptok) : id := match p with PExact h => h | _ => 0 end.
+
+(* ---- C04: reported scopes stay within what the resource owner granted (or, for
+        client_credentials, what was requested), and identity is that of the grant ---- *)
+Definition within_s (granted s : string) : bool := contains_all_scopes granted s.
+Definition clause_C04 (cfg : config) (kn : known) (now : Z) (o : op) (x : obs) : N :=
+  match o, x with
+  | OpToken GAuthorizationCode r, Out (OTokens t) =>
+      match lookup (t_code r) (k_codes kn) with
+      | Some gi => if within_s (gi_granted gi) (tr_scope t) then 0 else 1
+      | None => 0 end
+  | OpToken GRefreshToken r, Out (OTokens t) =>
+      match lookup (t_refresh r) (k_rts kn) with
+      | Some gi => if within_s (gi_granted gi) (tr_scope t) then 0 else 1
+      | None => 0 end
+  | OpIntrospect r, Out (OIntro i) =>
+      if negb (in_active i) then 0 else
+      match lookup (ptok_exact (q_tok r)) (if in_refresh i then k_rts kn else k_ats kn) with
+      | Some gi => if negb (within_s (gi_granted gi) (in_scope i)) then 1
+                   else if negb (ideq (in_client i) (gi_client gi)) then 3
+                   else 0
+      | None => 0 end
+  | _, _ => 0
+  end.
+Definition mon_C04 := run_monitor clause_C04.
+
+(* function level: the code honoured a request that the whole-entry rule (Props/C04.v,
+   scope_whole_entry) does not allow, or contains-all accepted a non-subset *)
+Definition mon_scope_case (c : scopecase) : N :=
+  if andb (fc_allowed c) (negb (are_scopes_allowed (fc_client c) (fc_avail c) (fc_req c))) then 1001
+  else if andb (fc_contains c) (negb (contains_all_scopes (fc_granted c) (fc_req c))) then 1001 else 0.
